@@ -747,6 +747,19 @@ fn check_c07<T: HLabel>(env: &mut Env, built: &Built<T>, rng: &mut Rng) {
                 l[0] = *rng.pick(&comps[c0]);
                 l[1] = *rng.pick(&comps[c1]);
             }
+            // two listed arguments whose positions differ by a word size (8, 16, 32, 64, 128): with the plain
+            // presentation their ids are congruent modulo that size
+            if len >= 2 && n > 8 && rng.pct(if n > 64 { 60 } else { 35 }) {
+                let steps: Vec<usize> = [8usize, 16, 32, 64, 128].iter().copied().filter(|s| *s < n && (n <= 64 || *s >= 64)).collect();
+                let step = steps[rng.below(steps.len())];
+                let a = rng.below(n - step);
+                let at = rng.below(len - 1);
+                l[at] = a;
+                l[at + 1] = a + step;
+                if step >= 64 {
+                    env.ctx.count("lists/two-arguments-64-or-128-positions-apart");
+                }
+            }
             lists.push(l);
         }
     }
@@ -1141,6 +1154,8 @@ pub fn schedule(prop: Prop, tier: Tier) -> Vec<(&'static str, u64)> {
             ("layered", if q { 500 } else { 10_000 }),
             ("lattice", if q { 600 } else { 12_000 }),
             ("dup", if q { 240 } else { 5_000 }),
+            ("big-union", if q { 160 } else { 3_000 }),
+            ("stable-rich-over-64", if q { 160 } else { 3_000 }),
         ],
     }
 }
